@@ -839,15 +839,16 @@ def enum_size_coincidences(tier):
                                   ("weakforms", 1, dict(dof_n=1, thickness=1.0)), ("weakforms", 2, dict(dof_n=2, thickness=1.0)),
                                   ("weakforms", 3, dict(dof_n=3, thickness=0.5)),
                                   ("elastic", 3 if d3 else 2, None), ("phasefield", 3 if d3 else 2, None)):
-            if m.Ne % ncomp or m.Ne // ncomp < m.Nn:
-                continue
             if model is None and sim == "elastic":
                 model = dict(cls="iso", dim=3 if d3 else 2, planeStress=not d3, thickness=1.0 if d3 else 0.5, E=3.0, v=0.3,
                              angles=[0.1] * (3 if d3 else 1))
             if model is None and sim == "phasefield":
                 model = dict(E=5.0, v=0.2, planeStress=False, thickness=0.5, split="Miehe" if not d3 else "Amor", regu="AT2", Gc=1.0, l0=0.3)
-            k += 1
-            yield dict(sim=sim, seed=k, only=None, algo="elliptic", model=model, recipe=dict(r, orphans=m.Ne // ncomp - m.Nn))
+            for ratio in sorted({ncomp, 1}):  # Nn * dof_n == Ne, and Nn == Ne
+                if m.Ne % ratio or m.Ne // ratio < m.Nn:
+                    continue
+                k += 1
+                yield dict(sim=sim, seed=k, only=None, algo="elliptic", model=model, recipe=dict(r, orphans=m.Ne // ratio - m.Nn))
 
 
 SUBS.append(Sub("size_coincidences", check_components, enum=enum_size_coincidences))
